@@ -216,7 +216,7 @@ Proof.
   unfold create. rewrite Hfree. unfold new_promise. fold d. cbn [fst snd].
   split; [reflexivity|]. split.
   { unfold repo_get, repo_set. cbn.
-    assert (Hk : key_eqb pk pk = true) by (destruct pk as [[[a b] c] e]; cbn; rewrite !Z.eqb_refl; reflexivity).
+    assert (Hk : key_eqb pk pk = true) by (destruct pk as [[[[a b] c] e] g0]; cbn; rewrite !Z.eqb_refl; reflexivity).
     rewrite Hk. reflexivity. }
   split; [|reflexivity].
   set (F := if (to =? 0) || (to =? d) then _ else _).
@@ -260,7 +260,7 @@ Proof.
     rewrite Nat.eqb_refl. repeat split; auto.
   - rewrite Hkeep. unfold create. rewrite Hpk. cbn [negb].
     repeat split; auto. left. unfold repo_get, repo_set. cbn.
-    assert (Hk : key_eqb sk sk = true) by (destruct sk as [[[a b] c] e]; cbn; rewrite !Z.eqb_refl; reflexivity).
+    assert (Hk : key_eqb sk sk = true) by (destruct sk as [[[[a b] c] e] g0]; cbn; rewrite !Z.eqb_refl; reflexivity).
     rewrite Hk. reflexivity.
 Qed.
 
